@@ -444,8 +444,11 @@ def c03(tier, seed, work):
         fams.append(dict(name="c03-group", insess=True, cmds="CmdsAGH", maxcalls=2, maxatt=2, kinds="KindsRetry", auth=a, integ=i))
         mc = [("MCConsole", "MC_Console_sess.cfg")]
     res = console_check("C03", tier, seed, work, mc, fams, COMMON_ASSUME, hs_fams=hs)
-    res = add_walk(res, work, [dict(name="c03-api", module="MCGenApi", cfg_tpl="Gen_Cipher.cfg.tpl", family="api", tier=tier, seed=seed)],
-                   "Every library command with its request fields inside a session (GenApi).")
+    res = add_walk(res, work, [dict(name="c03-api", module="MCGenApi", cfg_tpl="Gen_Cipher.cfg.tpl", family="api", tier=tier, seed=seed),
+                               dict(name="c03-tamper", module="MCGenForge", cfg_tpl="Gen_Forge.cfg.tpl", family="forge", tier=tier, seed=seed,
+                                    extra_subst=dict(AUTH=a, INTEG=i))],
+                   "Every library command with its request fields inside a session (GenApi). The retransmissions that follow every "
+                   "tampered, truncated (AuthCode too short, too long, missing) or forged reply of GenForge.")
     res["level"] = "exploration"
     res["coverage"]["rule"] = ("Every in-session datagram recorded from the real library is parsed by TLC (wrapper, integrity pad, "
                                "AuthCode verdict under the BMC-side K1, IV, ciphertext length, confidentiality pad, message checksums, "
@@ -667,7 +670,9 @@ def c05(tier, seed, work):
                    "other payload types.")
     res = add_walk(res, work, [dict(name="c05-discovery", module="MCGenCipher", cfg_tpl="Gen_Cipher.cfg.tpl", family="discovery", tier=tier, seed=seed),
                                dict(name="c05-endless", module="MCGenCipher", cfg_tpl="Gen_Cipher.cfg.tpl", family="endless", tier=tier, seed=seed),
-                               dict(name="c05-sdr", module="MCGenSdr", cfg_tpl="Gen_Cipher.cfg.tpl", family="plain", tier="quick", seed=seed, opts={"exact": True})],
+                               dict(name="c05-sdr", module="MCGenSdr", cfg_tpl="Gen_Cipher.cfg.tpl", family="plain", tier="quick", seed=seed, opts={"exact": True}),
+                               dict(name="c05-sdr-faults", module="MCGenSdr", cfg_tpl="Gen_Cipher.cfg.tpl", family="faults", tier=tier, seed=seed, opts={"exact": True}),
+                               dict(name="c05-sdr-faults-buf", module="MCGenSdr", cfg_tpl="Gen_Cipher.cfg.tpl", family="faults", tier=tier, seed=seed)],
                    "Protocol positions: malformed and truncated cipher-suite record data during discovery; SDR walks with exact-capacity "
                    "receive slices.")
     # every reply of the handshake substituted (bit flips, status, tags, truncation at every length, short payloads), exact-capacity slices
@@ -691,7 +696,8 @@ def c05(tier, seed, work):
 
 def c05_vec(tier, seed, work):
     W = dict(module="MCGenWireVec")
-    return vec_check("C05", tier, seed, work, [_vf("c05-total", "totality", tier, seed), _vf("c05-message", "message", tier, seed, **W),
+    return vec_check("C05", tier, seed, work, [_vf("c05-total", "totality", tier, seed), _vf("c05-reuse", "reuse", tier, seed), _vf("c05-history", "rsp", tier, seed),
+                                               _vf("c05-message", "message", tier, seed, **W),
                                                _vf("c05-wrapper", "wrapper", tier, seed, **W), _vf("c05-setup", "setup", tier, seed, **W)],
                      "Totality of every decodable layer (28 layers): pseudo-random strings of many lengths incl. 500..512, constant strings, "
                      "every prefix and single-byte substitution {00,7F,80,FF} at every offset of valid encodings; each decoded on an "
